@@ -141,14 +141,24 @@ Definition parse_bool (s : bs) : option bool :=
   else if existsb (bs_eqb s) [B "0"; B "f"; B "F"; B "FALSE"; B "false"; B "False"] then Some false
   else None.
 
-(* decimal floating-point syntax accepted by strconv.ParseFloat (no hex, no inf/nan, no underscores):
-   [+-]? (digits+ ('.' digits* )? | '.' digits+) ([eE] [+-]? digits+)? *)
+(* floating-point syntax accepted by strconv.ParseFloat; decimal form:
+   [+-]? (digits+ ('.' digits* )? | '.' digits+) ([eE] [+-]? digits+)?
+   where the digit runs may hold underscores that readFloat skips, provided strconv.underscoreOK holds: every
+   underscore stands between two digits ("1_0" is 10, "1_" and "_1" and "1_.5" are refused) *)
 Fixpoint skip_digits (s : bs) : nat * bs :=
   match s with
   | c :: r => if is_digit c then let '(n, t) := skip_digits r in (S n, t) else (0, s)
   | [] => (0, [])
   end.
-Definition float_ok (s : bs) : bool :=
+(* strconv.underscoreOK on a text without base prefix; saw: 0 = start / other, 1 = digit, 2 = underscore *)
+Fixpoint us_ok_from (saw : nat) (s : bs) : bool :=
+  match s with
+  | [] => negb (Nat.eqb saw 2)
+  | c :: r => if is_digit c then us_ok_from 1 r
+              else if Byte.eqb c "_"%byte then Nat.eqb saw 1 && us_ok_from 2 r
+              else negb (Nat.eqb saw 2) && us_ok_from 0 r
+  end.
+Definition float_syntax (s : bs) : bool :=
   let s1 := match s with c :: r => if Byte.eqb c "-"%byte || Byte.eqb c "+"%byte then r else s | [] => [] end in
   let '(n1, s2) := skip_digits s1 in
   let '(n2, s3) := match s2 with
@@ -165,6 +175,55 @@ Definition float_ok (s : bs) : bool :=
              negb (Nat.eqb n3 0) && match r2 with [] => true | _ => false end
            else false
        end.
+(* hexadecimal form: 0x mantissa (hex digits, optional '.') and a mandatory binary exponent p[+-]digits *)
+Definition is_hexd (c : byte) : bool :=
+  is_digit c || (N.leb 97 (n_of c) && N.leb (n_of c) 102) || (N.leb 65 (n_of c) && N.leb (n_of c) 70).
+Fixpoint skip_hexd (s : bs) : nat * bs :=
+  match s with
+  | c :: r => if is_hexd c then let '(n, t) := skip_hexd r in (S n, t) else (0, s)
+  | [] => (0, [])
+  end.
+Definition hexfloat_syntax (s : bs) : bool :=   (* s: what follows the sign and "0x" *)
+  let '(n1, s2) := skip_hexd s in
+  let '(n2, s3) := match s2 with
+                   | c :: r => if Byte.eqb c "."%byte then skip_hexd r else (0, s2)
+                   | [] => (0, [])
+                   end in
+  if Nat.eqb (n1 + n2) 0 then false
+  else match s3 with
+       | c :: r =>
+           if Byte.eqb c "p"%byte || Byte.eqb c "P"%byte then
+             let r1 := match r with d :: r' => if Byte.eqb d "-"%byte || Byte.eqb d "+"%byte then r' else r | [] => [] end in
+             let '(n3, r2) := skip_digits r1 in
+             negb (Nat.eqb n3 0) && match r2 with [] => true | _ => false end
+           else false
+       | [] => false
+       end.
+(* strconv.underscoreOK after a 0x prefix: hexadecimal digits count as digits, the prefix counts as one *)
+Fixpoint us_ok_hex (saw : nat) (s : bs) : bool :=
+  match s with
+  | [] => negb (Nat.eqb saw 2)
+  | c :: r => if is_hexd c then us_ok_hex 1 r
+              else if Byte.eqb c "_"%byte then Nat.eqb saw 1 && us_ok_hex 2 r
+              else negb (Nat.eqb saw 2) && us_ok_hex 0 r
+  end.
+Definition no_us (s : bs) : bs := filter (fun c => negb (Byte.eqb c "_"%byte)) s.
+Definition lower_ascii (c : byte) : byte :=
+  if N.leb 65 (n_of c) && N.leb (n_of c) 90 then match Byte.of_N (n_of c + 32) with Some b => b | None => c end else c.
+(* strconv.special: [+-]?inf, [+-]?infinity, nan (no sign), any letter case *)
+Definition float_special (s : bs) : bool :=
+  let l := map lower_ascii s in
+  let unsigned := match l with c :: r => if Byte.eqb c "-"%byte || Byte.eqb c "+"%byte then r else l | [] => [] end in
+  bs_eqb unsigned (B "inf") || bs_eqb unsigned (B "infinity") || bs_eqb l (B "nan").
+Definition float_ok (s : bs) : bool :=
+  let unsigned := match s with c :: r => if Byte.eqb c "-"%byte || Byte.eqb c "+"%byte then r else s | [] => [] end in
+  match unsigned with
+  | z :: x :: r =>
+      if Byte.eqb z "0"%byte && (Byte.eqb x "x"%byte || Byte.eqb x "X"%byte)
+      then us_ok_hex 1 r && hexfloat_syntax (no_us r)
+      else float_special s || (us_ok_from 0 s && float_syntax (no_us s))
+  | _ => float_special s || (us_ok_from 0 s && float_syntax (no_us s))
+  end.
 
 (* one text as a value of the kind, rendered canonically; floats stay text *)
 Definition conv (k : kind) (s : bs) : option bs :=
